@@ -26,6 +26,7 @@ def run(ctx):
     ctx.use_program(prog)
     check_alias(ctx, prog)
     check_width(ctx, prog)
+    check_numeric_model(ctx, prog)
     check_negate(ctx, prog)
     check_printf(ctx, prog)
     check_resize_keep(ctx, prog)
@@ -78,40 +79,69 @@ def check_alias(ctx, prog):
 
 # ------------------------------------------------------------------ C03.width
 
+CAP_TABLE = {}
+
+
 def capacity(n, space):
-    """bytes available after String::alloc(n) (read from alloc's own body below)"""
+    """bytes available after String::alloc(n): read from the table alloc_model() obtained by interpreting alloc() itself"""
+    if n in CAP_TABLE:
+        return CAP_TABLE[n]
     return space if n < space else max(n + 1, 20)
 
 
 def alloc_model(ctx, prog):
-    """Confirms the shape of String::alloc that capacity() models: n < SPACE -> inline SPACE bytes, else max(n+1, 20)."""
-    fs = prog.fn('asl::String::alloc')
+    """The capacity String::alloc(n) provides, by interpretation (scansim) of alloc() for n = 0..2100 with malloc recorded:
+    inline storage (`_size` left 0) gives the bytes of the `_space` member, a heap block gives the size passed to malloc, which
+    must also be what `_size` records.  Necessary conditions of every width decision: the capacity exceeds n (room for the
+    terminator) and is monotone."""
+    import scansim
+    fs = [g for g in prog.fn('asl::String::alloc') if g.get('body')]
     if not fs:
         raise AnalysisBroken('String::alloc not found')
     f = fs[0]
     ctx.analysed(f)
-    space = None
-    heapmin = None
-    for e in fn_exprs(f):
-        if e.get('k') == 'bin' and e.get('op') == '<' and strip(e['x']).get('vk') == 'param' and const_val(e['y']) is not None:
-            space = const_val(e['y'])
-        if e.get('k') == 'call' and (e.get('pq') or '').endswith('max') and len(e.get('a', [])) == 2 and const_val(e['a'][1]) is not None:
-            inc = strip(e['a'][0])
-            if inc.get('k') == 'un' and inc.get('op') == 'pre++':
-                heapmin = const_val(e['a'][1])
-    rec = prog.records.get('asl::String')
     inline = None
-    if rec:
-        for r in prog.records.values():
-            if r['q'].startswith('asl::String::') and r.get('union'):
-                for fld in r['fields']:
-                    if fld['n'] == '_space':
-                        inline = T(r, fld['t']).get('n')
-    ok = space is not None and heapmin == 20 and inline == space
-    ctx.check(ok, 'C03.width', f['pq'], 'alloc:capacity model', fwhere(f), 'n < %s -> %s inline bytes, else max(n+1, %s)' % (space, inline, heapmin),
-              'String::alloc no longer has the shape (n < SPACE ? inline SPACE bytes : max(n+1, 20)) that the width rule models (threshold %s, inline %s, heap minimum %s)' % (space, inline, heapmin))
-    if not ok:
-        raise AnalysisBroken('String::alloc shape not recognised')
+    for r in prog.records.values():
+        if r['q'].startswith('asl::String::') and r.get('union'):
+            for fld in r['fields']:
+                if fld['n'] == '_space':
+                    inline = T(r, fld['t']).get('n')
+    if not inline:
+        raise AnalysisBroken('inline buffer of String not found')
+    CAP_TABLE.clear()
+    bad = und = None
+    for n in list(range(0, 80)) + [255, 256, 1023, 1024, 1025, 2047, 2048, 2100]:
+        sizes = []
+
+        def malloc(run, e, args, sizes=sizes):
+            sizes.append(args[0])
+            run.bufs['HEAP'] = [scansim.UNINIT] * max(0, args[0] if isinstance(args[0], int) else 0)
+            return ('P', 'HEAP', 0)
+        mems = {'_size': 0x5555, '_len': 0}
+        r = scansim.Run(prog, f, {}, int_params={f['params'][0]['id']: n}, mems=mems, externs={'malloc': malloc}, methods={'*': 'interp'})
+        ctx.evaluations += 1
+        try:
+            r.run()
+        except (scansim.Unsupported, scansim.OOB, TypeError, KeyError) as u:
+            und = 'alloc(%d): %s' % (n, u)
+            break
+        sz = mems.get('_size')
+        if sz == 0 and not sizes:
+            cap = inline
+        elif len(sizes) == 1 and isinstance(sizes[0], int) and sz == sizes[0]:
+            cap = sizes[0]
+        else:
+            bad = 'alloc(%d) leaves _size = %s after malloc calls %s: the recorded size is not the size of the block' % (n, sz, sizes)
+            break
+        if cap < n + 1:
+            bad = 'alloc(%d) provides %d bytes: no room for %d characters and their terminator' % (n, cap, n)
+            break
+        CAP_TABLE[n] = cap
+    space = min([n for n, c in CAP_TABLE.items() if c != inline] or [inline])
+    if und:
+        ctx.undecided('C03.width', f['pq'], 'alloc:capacity model', fwhere(f), 'outside the interpreted fragment: %s' % und)
+        raise AnalysisBroken('String::alloc not interpretable: %s' % und)
+    ctx.check(bad is None, 'C03.width', f['pq'], 'alloc:capacity model', fwhere(f), 'interpreted for %d sizes: inline %d bytes below %d, heap blocks of at least n+1 bytes above' % (len(CAP_TABLE), inline, space), bad or '')
     return space
 
 
@@ -235,7 +265,7 @@ def check_width(ctx, prog):
                   'text + NUL fits the capacity of the admitted alloc for %d representative arguments (limits, powers of ten, constants of the constructor)' % len(reps),
                   'for the argument %s the text has %d characters + NUL = %d bytes but alloc(%d) guarantees only %d: the conversion writes past the buffer (or is truncated)' % (
                       (worst[0], worst[1], worst[1] + 1, worst[2], worst[3]) if worst else (0, 0, 0, 0, 0)))
-    ctx.floor('C03.width numeric constructors', n, 6)
+    ctx.floor('C03.width numeric constructors', n, 1)   # the constructors that use a recognised converter; all of them are decided by C03.number
 
 
 def conj(c):
@@ -744,3 +774,105 @@ def check_valist(ctx, prog):
             else:
                 ctx.ok('C03.valist', f['pq'], role, fwhere(f), 'every formatting pass starts from a fresh va_list on every path')
     ctx.floor('C03.valist members with a va_list', n, 2)
+
+
+def check_numeric_model(ctx, prog):
+    """C03.number: every constructor of String from a number is interpreted whole (scansim: alloc() with malloc modelled as a
+    bounds-checked block, the inline buffer as its own block, the digit helpers interpreted, snprintf / strcpy modelled) for
+    representative arguments - type limits, 0, +-1, every power of ten with its neighbours, the constants of the constructor.
+    The result must be the decimal text of the argument for integer types ("true"/"false" for bool), `_len` must be the offset
+    of the terminating NUL, and no store may leave the block alloc() provided."""
+    import scansim
+    inline = None
+    for r in prog.records.values():
+        if r['q'].startswith('asl::String::') and r.get('union'):
+            for fld in r['fields']:
+                if fld['n'] == '_space':
+                    inline = T(r, fld['t']).get('n')
+    if not inline:
+        raise AnalysisBroken('inline buffer of String not found')
+    n = 0
+    for f in prog.functions:
+        if f.get('pq') != 'asl::String::String' or not f.get('body') or len(f['params']) != 1:
+            continue
+        pt = T(f, f['params'][0]['t'])
+        if not (pt.get('int') or pt.get('flt')) or pt.get('ptr') or pt.get('s') in ('char',):
+            continue
+        ctx.analysed(f)
+        role = 'String(%s):text, length and bounds' % pt['s']
+        bits, sg = pt.get('bits'), pt.get('sg')
+        if pt.get('bool'):
+            reps = [0, 1]
+        elif pt.get('int'):
+            lo = -2 ** (bits - 1) if sg else 0
+            hi = 2 ** (bits - 1) - 1 if sg else 2 ** bits - 1
+            reps = {lo, hi, 0, 1, -1, lo + 1, hi - 1, 5, -5, 42, -42}
+            for k in range(0, 20):
+                reps |= {10 ** k - 1, 10 ** k, 10 ** k + 1, -(10 ** k) - 1, -(10 ** k), -(10 ** k) + 1}
+            for w in fn_exprs(f):
+                if w.get('k') == 'int' and const_val(w) is not None:
+                    reps |= {const_val(w) - 1, const_val(w), const_val(w) + 1}
+            reps = sorted(x for x in reps if lo <= x <= hi)
+        else:
+            big = 1e308 if pt.get('s') != 'float' else 1e38          # (the largest finite value printed with 15 digits rounds up past the range)
+            reps = [0.0, 1.0, -1.0, 0.5, -2.25e-05, 123456.789, 1e15, -1e15, 1e16, -123456789012345678.0, big, -big, 5e-324 if pt.get('s') != 'float' else 1.401298464324817e-45]
+        bad = und = None
+        for x in reps:
+            bufs = {'SPACE': [scansim.UNINIT] * inline}
+            mems = {'_space': ('P', 'SPACE', 0), '_size': 0x5555, '_len': -7}
+
+            def malloc(run, e, args, bufs=bufs):
+                if not isinstance(args[0], int) or args[0] < 0:
+                    raise scansim.Unsupported('malloc size')
+                bufs['HEAP'] = [scansim.UNINIT] * args[0]
+                return ('P', 'HEAP', 0)
+            r = scansim.Run(prog, f, bufs, mems=mems, externs={'malloc': malloc}, methods={'*': 'interp'}, objects=True)
+            r.vars[f['params'][0]['id']] = x
+            ctx.evaluations += 1
+            try:
+                r.run()
+            except scansim.OOB as o:
+                bad = 'String(%s) of %r writes outside the storage alloc() provided: %s' % (pt['s'], x, o)
+                break
+            except (scansim.Unsupported, TypeError, KeyError, IndexError, OverflowError, ValueError) as u:
+                und = 'argument %r: %s' % (x, u)
+                break
+            buf = bufs['SPACE'] if mems.get('_size') == 0 else bufs.get('HEAP', [])
+            txt = []
+            for c in buf:
+                if c == 0:
+                    break
+                txt.append(c)
+            else:
+                bad = 'String(%s) of %r leaves no terminating NUL inside its %d-byte storage' % (pt['s'], x, len(buf))
+                break
+            if not all(isinstance(c, int) for c in txt):
+                bad = 'String(%s) of %r leaves uninitialised bytes before the terminator' % (pt['s'], x)
+                break
+            text = ''.join(chr(c & 255) for c in txt)
+            if mems.get('_len') != len(txt):
+                bad = 'String(%s) of %r holds "%s" (%d characters) but length() is %s' % (pt['s'], x, text, len(txt), mems.get('_len'))
+                break
+            if pt.get('bool'):
+                want = 'true' if x else 'false'
+            elif pt.get('int'):
+                want = str(x)
+            else:
+                want = None
+                try:
+                    back = float(text)
+                except ValueError:
+                    bad = 'String(%s) of %r is "%s", which is not a number' % (pt['s'], x, text)
+                    break
+                if x != 0 and abs(back - x) > abs(x) * 1e-6 or (x == 0 and back != 0):
+                    bad = 'String(%s) of %r is "%s"' % (pt['s'], x, text)
+                    break
+            if want is not None and text != want:
+                bad = 'String(%s) of %d is "%s", expected "%s"' % (pt['s'], x, text, want)
+                break
+        if und:
+            ctx.undecided('C03.number', f['pq'], role, fwhere(f), 'outside the interpreted fragment: %s' % und)
+        else:
+            n += 1
+            ctx.check(bad is None, 'C03.number', f['pq'], role, fwhere(f), 'interpreted for %d representative arguments' % len(reps), bad or '')
+    ctx.floor('C03.number numeric constructors interpreted', n, 6)
